@@ -100,6 +100,12 @@ pub struct Layout {
     pub central_rot: u32,
     pub central_rev: bool,
     pub gap_before_cd: u32,
+    /// a hole of this many (zero) bytes between the prepended data and the first local header that BELONGS to
+    /// the archive: every recorded offset counts it, so with a hole of 4 GiB all offsets travel in ZIP64
+    /// records. `Built::image` does not contain the hole (flat positions); `Built::store()` materialises it
+    /// on a sparse disk and `Built::abs()` maps a flat position to the position there.
+    #[serde(default)]
+    pub hole: u64,
 }
 
 #[derive(Clone, Debug, Default)]
@@ -129,6 +135,33 @@ pub struct Built {
     pub eocd_pos: u64,
     pub cd_start: u64,
     pub zip64_end: bool,
+    pub hole_at: u64,
+    pub hole: u64,
+}
+
+impl Built {
+    /// position on the (sparse) disk of a position in the flat image
+    pub fn abs(&self, flat: u64) -> u64 {
+        if self.hole > 0 && flat >= self.hole_at {
+            flat + self.hole
+        } else {
+            flat
+        }
+    }
+    /// the archive on a sparse simulated disk, hole included
+    pub fn store(&self) -> crate::simio::Shared {
+        if self.hole == 0 {
+            return crate::simio::shared_from(&self.image);
+        }
+        let st = crate::simio::shared_empty();
+        {
+            let mut g = st.lock().unwrap_or_else(|e| e.into_inner());
+            let at = self.hole_at as usize;
+            g.write_at(0, &self.image[..at]);
+            g.write_at(self.hole_at + self.hole, &self.image[at..]);
+        }
+        st
+    }
 }
 
 fn junk(seed: u64, n: usize) -> Vec<u8> {
@@ -145,6 +178,7 @@ fn junk(seed: u64, n: usize) -> Vec<u8> {
 pub fn build(l: &Layout) -> Built {
     let mut img: Vec<u8> = junk(l.prefix_seed, l.prefix as usize);
     let base = img.len() as u64;
+    let hole = l.hole;
     let mut infos: Vec<BInfo> = vec![];
     for (ei, e) in l.entries.iter().enumerate() {
         img.extend_from_slice(&junk(ei as u64 + 77, e.gap_before as usize));
@@ -204,7 +238,9 @@ pub fn build(l: &Layout) -> Built {
         let csize = raw.len() as u64;
         let usz = plain.len() as u64;
         let header_start = img.len() as u64;
-        let rel_off = header_start - base;
+        let rel_off = header_start - base + hole;
+        // a value that does not fit its 32-bit field has to travel in the ZIP64 record
+        let z64_central = e.z64_central | if rel_off >= 0xFFFF_FFFF { 4 } else { 0 };
         // local extra
         let dd64 = dd == 3 || dd == 4;
         let z64_local = e.z64_local || dd64;
@@ -280,18 +316,18 @@ pub fn build(l: &Layout) -> Built {
         }
         // central extra
         let mut zc: Vec<u8> = vec![];
-        if e.z64_central & 0x0f != 0 {
+        if z64_central & 0x0f != 0 {
             let mut body = vec![];
-            if e.z64_central & 1 != 0 {
+            if z64_central & 1 != 0 {
                 body.extend_from_slice(&usz.to_le_bytes());
             }
-            if e.z64_central & 2 != 0 {
+            if z64_central & 2 != 0 {
                 body.extend_from_slice(&csize.to_le_bytes());
             }
-            if e.z64_central & 4 != 0 {
+            if z64_central & 4 != 0 {
                 body.extend_from_slice(&rel_off.to_le_bytes());
             }
-            if e.z64_central & 8 != 0 {
+            if z64_central & 8 != 0 {
                 body.extend_from_slice(&0u32.to_le_bytes());
             }
             zc.extend_from_slice(&1u16.to_le_bytes());
@@ -354,8 +390,9 @@ pub fn build(l: &Layout) -> Built {
         if dd != 0 {
             flags |= 8;
         }
-        let rel_off = info.header_start - base;
-        let needs45 = e.z64_central & 0x0f != 0;
+        let rel_off = info.header_start - base + hole;
+        let z64_central = e.z64_central | if rel_off >= 0xFFFF_FFFF { 4 } else { 0 };
+        let needs45 = z64_central & 0x0f != 0;
         img.extend_from_slice(&SIG_CENTRAL.to_le_bytes());
         img.extend_from_slice(&(((e.sys as u16) << 8) | e.ver as u16).to_le_bytes());
         img.extend_from_slice(&(if needs45 { 45u16 } else { e.ver as u16 }).to_le_bytes());
@@ -364,26 +401,26 @@ pub fn build(l: &Layout) -> Built {
         img.extend_from_slice(&e.dos.1.to_le_bytes());
         img.extend_from_slice(&e.dos.0.to_le_bytes());
         img.extend_from_slice(&info.crc_recorded.to_le_bytes());
-        img.extend_from_slice(&(if e.z64_central & 2 != 0 { 0xFFFF_FFFF } else { info.csize as u32 }).to_le_bytes());
-        img.extend_from_slice(&(if e.z64_central & 1 != 0 { 0xFFFF_FFFF } else { info.usize as u32 }).to_le_bytes());
+        img.extend_from_slice(&(if z64_central & 2 != 0 { 0xFFFF_FFFF } else { info.csize as u32 }).to_le_bytes());
+        img.extend_from_slice(&(if z64_central & 1 != 0 { 0xFFFF_FFFF } else { info.usize as u32 }).to_le_bytes());
         let cname = e.central_name.as_ref().unwrap_or(&e.name);
         img.extend_from_slice(&(cname.0.len() as u16).to_le_bytes());
         img.extend_from_slice(&(info.central_extra.len() as u16).to_le_bytes());
         img.extend_from_slice(&(e.comment.0.len() as u16).to_le_bytes());
-        img.extend_from_slice(&(if e.z64_central & 8 != 0 { 0xFFFFu16 } else { 0 }).to_le_bytes());
+        img.extend_from_slice(&(if z64_central & 8 != 0 { 0xFFFFu16 } else { 0 }).to_le_bytes());
         img.extend_from_slice(&e.iattr.to_le_bytes());
         img.extend_from_slice(&e.eattr.to_le_bytes());
-        img.extend_from_slice(&(if e.z64_central & 4 != 0 { 0xFFFF_FFFF } else { rel_off as u32 }).to_le_bytes());
+        img.extend_from_slice(&(if z64_central & 4 != 0 { 0xFFFF_FFFF } else { rel_off as u32 }).to_le_bytes());
         img.extend_from_slice(&cname.0);
         img.extend_from_slice(&info.central_extra);
         img.extend_from_slice(&e.comment.0);
         out_infos.push(info);
     }
     let cd_size = img.len() as u64 - cd_start;
-    let rel_cd = cd_start - base;
-    let zip64_end = l.force_z64_end;
+    let rel_cd = cd_start - base + hole;
+    let zip64_end = l.force_z64_end || rel_cd >= 0xFFFF_FFFF || cd_size >= 0xFFFF_FFFF || n >= 0xFFFF;
     if zip64_end {
-        let rec_rel = img.len() as u64 - base;
+        let rec_rel = img.len() as u64 - base + hole;
         img.extend_from_slice(&SIG_Z64_EOCD.to_le_bytes());
         img.extend_from_slice(&44u64.to_le_bytes());
         img.extend_from_slice(&45u16.to_le_bytes());
@@ -424,7 +461,7 @@ pub fn build(l: &Layout) -> Built {
     if !zip64_end {
         img.extend_from_slice(&junk(4242, l.trailing as usize));
     }
-    Built { image: img, infos: out_infos, order, eocd_pos, cd_start, zip64_end }
+    Built { image: img, infos: out_infos, order, eocd_pos, cd_start, zip64_end, hole_at: base, hole }
 }
 
 /// name bytes for the builder: ASCII, CP437 high bytes, or UTF-8 with the flag
